@@ -18,7 +18,7 @@ class C03(core.Check):
     PROPS = 'props/C03.v'
     MODEL_IMPORTS = ['gen.Gen_mbf', 'model.MBF']
     QUICK_CASES = 1000
-    THOROUGH_CASES = 12000
+    THOROUGH_CASES = 6000
     TRUSTED = ['idiom layer of translate/targets/gen_mbf.py + lib/MBFPrims.v (value buffers as byte lists; '
                'buffer-length class invariant)',
                'hand glue in model/MBF.v (Double.to_single/from_single, Float.ifloor, Integer.from_int, '
@@ -106,8 +106,16 @@ class C03(core.Check):
             else:
                 add({'op': rng.choice(['cint', 'fix', 'int']), 'v': M.rand_value(rng, (4, 8))})
         if self.tier == 'thorough':
-            for lo in range(-32768, 32768, SWEEP):
-                add({'op': 'sweep', 'lo': lo}, 'sweep:exhaustive')
+            # all 65536 integers, interleaved with the other cases so that the coqc shards are balanced
+            sweeps = [{'op': 'sweep', 'lo': lo} for lo in range(-32768, 32768, SWEEP)]
+            step = max(1, len(out) // len(sweeps))
+            merged = []
+            for i, c in enumerate(out):
+                merged.append(c)
+                if i % step == 0 and sweeps:
+                    merged.append(sweeps.pop())
+            out = merged + sweeps
+            hist['sweep:exhaustive'] = 65536 // SWEEP
             hist['exhaustive_integers'] = 65536
         self.histogram = hist
         return out
@@ -151,6 +159,12 @@ class C03(core.Check):
         out = []
         for p in self.parts(case):
             out += self.impl1(p)
+        if case['op'] == 'sweep':
+            # long result: compared through length + polynomial hash (model: MBF.digest)
+            h = 0
+            for x in out:
+                h = (h * 1000003 + x + 1) % 2305843009213693951
+            return [len(out), h]
         return out
 
     def impl1(self, case):
